@@ -1,5 +1,6 @@
 use std::ops::ControlFlow;
-use std::sync::{Arc, RwLock};
+use std::collections::HashSet;
+use std::sync::{Arc, Mutex, RwLock};
 
 use async_lsp::lsp_types::{
     notification, request, CompletionOptions, CompletionParams, CompletionResponse,
@@ -26,6 +27,8 @@ pub struct Server {
     vfs: Arc<RwLock<Vfs>>,
     client: ClientSocket,
     diagnostic_version: i32,
+    /// documents for which diagnostics have been published and not yet cleared
+    published_diagnostics: Arc<Mutex<HashSet<Url>>>,
 }
 
 impl Server {
@@ -58,6 +61,7 @@ impl Server {
             vfs: Arc::new(RwLock::new(Vfs::new())),
             client,
             diagnostic_version: 0,
+            published_diagnostics: Arc::default(),
         }
     }
 }
@@ -301,7 +305,9 @@ impl Server {
     fn update_diagnostics(&mut self) {
         let diag_version = self.bump_diagnostic_version();
         let mut client = self.client.clone();
+        let published = Arc::clone(&self.published_diagnostics);
         self.spawn_with_snapshot((), move |snap, _| {
+            let mut current = HashSet::new();
             for (file_id, diagnostics) in snap.analysis.diagnostics() {
                 let line_index = snap.analysis.line_index(file_id);
                 let lsp_diags = diagnostics
@@ -313,13 +319,25 @@ impl Server {
                 crate::verif_hooks::point("task:before_vfs_read");
                 let vfs = snap.vfs.read().unwrap();
                 let file_path = vfs.path_for_file(&file_id);
-                let file_uri = UrlExt::from_file_path(file_path);
+                let file_uri: Url = UrlExt::from_file_path(file_path);
 
+                current.insert(file_uri.clone());
                 let params = PublishDiagnosticsParams::new(file_uri, lsp_diags, Some(diag_version));
                 client
                     .publish_diagnostics(params)
                     .expect("failed to publish diagnostics");
             }
+
+            // a document that is no longer part of the workspace must not keep its old diagnostics
+            let mut published = published.lock().unwrap();
+            for stale_uri in published.difference(&current) {
+                let params =
+                    PublishDiagnosticsParams::new(stale_uri.clone(), Vec::new(), Some(diag_version));
+                client
+                    .publish_diagnostics(params)
+                    .expect("failed to publish diagnostics");
+            }
+            *published = current;
         });
     }
 
